@@ -24,6 +24,8 @@ func init() {
 
 func runC13(p *eng.Prog, r *eng.Report, tier string) {
 	c := &cx{p, r, tier}
+	// C13.36 (= C14.7): the hand-written constructors agree with the struct decoders on typed attributes
+	typedAttrsThroughOwnDecoder(c, "C13.36")
 	c11SplitString(c, "C13.33")
 	c11EncodersEmitString(c, "C13.35")
 	c13ErrorIsDirectChild(c, "C13.34")
